@@ -31,7 +31,10 @@ def tokenize(s):
 
 
 FUNCS = {"exp": "exp", "log": "log", "sqrt": "sqrt", "sin": "sin", "cos": "cos", "tan": "tan", "asin": "asin",
-         "acos": "acos", "atan": "atan", "fabs": "abs", "floor": "floor"}
+         "acos": "acos", "atan": "atan", "fabs": "abs", "floor": "floor",
+         # the C printer emits the integer abs() for arguments sympy knows to be integer valued (e.g. floor(x));
+         # on such values it agrees with fabs
+         "abs": "abs"}
 BINPREC = {"||": 1, "&&": 2, "==": 3, "!=": 3, "<": 4, ">": 4, "<=": 4, ">=": 4, "+": 5, "-": 5, "*": 6, "/": 6}
 REL = {"<": "lt", ">": "gt", "<=": "le", ">=": "ge", "==": "eq", "!=": "ne"}
 
